@@ -17,9 +17,25 @@ MAX_CASES_PER_DESCRIPTOR = 3
 MAX_SAMPLES = 12
 
 
+def _limit_free(x: Any) -> Any:
+    """Same structure with every int spelled in hexadecimal: repr()/str() of a large int depends on the interpreter's
+    int<->str digit limit, a process-global setting that the code under test may change."""
+    if isinstance(x, bool) or x is None or isinstance(x, (str, bytes, float)):
+        return x
+    if isinstance(x, int):
+        return hex(x) if abs(x) >= 10 ** 300 else x
+    if isinstance(x, (list, tuple)):
+        return tuple(_limit_free(i) for i in x)
+    if isinstance(x, dict):
+        return tuple((k, _limit_free(v)) for k, v in x.items())
+    if isinstance(x, (set, frozenset)):
+        return tuple(sorted((_limit_free(i) for i in x), key=repr))
+    return x
+
+
 def h64(key: Any) -> int:
     if not isinstance(key, (bytes, str)):
-        key = repr(key)
+        key = repr(_limit_free(key))
     if isinstance(key, str):
         key = key.encode('utf-8', 'surrogatepass')
     return int.from_bytes(hashlib.blake2b(key, digest_size=8).digest(), 'big')
@@ -29,7 +45,7 @@ def jsonable(x: Any) -> Any:
     """Best-effort conversion of a case to something json.dump accepts (bytes -> {'hex':..})."""
     if isinstance(x, (str, int, float, bool)) or x is None:
         if isinstance(x, int) and not isinstance(x, bool) and abs(x) >= 2**63:
-            return {'__bigint__': str(x)}
+            return {'__bigint__': hex(x)}
         return x
     if isinstance(x, bytes):
         return {'hex': x.hex()}
@@ -48,7 +64,7 @@ def unjson(x: Any) -> Any:
         if set(x) == {'hex'}:
             return bytes.fromhex(x['hex'])
         if set(x) == {'__bigint__'}:
-            return int(x['__bigint__'])
+            return int(x['__bigint__'], 16) if 'x' in x['__bigint__'] else int(x['__bigint__'])
         return {k: unjson(v) for k, v in x.items()}
     if isinstance(x, list):
         return [unjson(i) for i in x]
